@@ -245,4 +245,50 @@ example :
                               { uid := 2, ranks := 1, cpr := 1, gpr := 0, lfs := 0, mem := 0 }]] }] []).1.held.map (·.1)) = [1, 2] := by
   decide +kernel
 
+open RPVerif.NodeList in
+/-- an operation on the application-level node list -/
+inductive NOp where
+  | find (rr : RR) (n : Nat)              -- `find_slots`
+  | release (slots : List ASlot)          -- `release_slots`
+  | app (pos : Nat) (slot : ASlot)        -- a slot of the application's own making: `nodes[pos].allocate_slot(slot)`
+
+open RPVerif.NodeList in
+def nstep (l : NL) : NOp → NL
+  | .find rr n      => (findSlots l rr n).2
+  | .release slots  => releaseSlots l slots
+  | .app pos slot   => match allocApp l pos slot with
+                       | some l' => l'
+                       | none    => l            -- refused: nothing changes
+
+open RPVerif.NodeList in
+/-- **placements supplied by the application included**: for every history of `find_slots`,
+    `release_slots` and `allocate_slot` calls with slots of the application's own making (each naming a
+    core or GPU at most once), accepted or refused, no core and no GPU of any node is ever occupied beyond
+    one whole -/
+theorem C01_nodelist_bound_app (l : NL) (ops : List NOp) (h : AllBound l.nodes)
+    (hw : ∀ op ∈ ops, ∀ pos s, op = NOp.app pos s → slotWF s = true) :
+    AllBound (ops.foldl nstep l).nodes := by
+  induction ops generalizing l with
+  | nil => exact h
+  | cons op ops ih =>
+    rw [List.foldl_cons]
+    apply ih
+    · cases op with
+      | find rr n => exact findSlots_bound l rr n h
+      | release slots => exact releaseSlots_bound l slots h
+      | app pos s =>
+        simp only [nstep]
+        cases ha : allocApp l pos s with
+        | none => exact h
+        | some l' => exact allocApp_bound l l' pos s (hw _ List.mem_cons_self pos s rfl) h ha
+    · intro op' hop'; exact hw op' (List.mem_cons_of_mem _ hop')
+
+open RPVerif.NodeList in
+/-- the checks are not vacuous: a slot naming a GPU that is held is refused, one naming a free GPU is taken -/
+example :
+    let n : ANode := { index := 0, cores := [some 0, some 16], gpus := [some 16, some 0], lfs := 0, mem := 0 }
+    allocChecked n { node := 0, cores := [(0, 16)], gpus := [(0, 16)], lfs := 0, mem := 0 } = none
+    ∧ (allocChecked n { node := 0, cores := [(0, 16)], gpus := [(1, 16)], lfs := 0, mem := 0 }).isSome = true := by
+  decide
+
 end RPVerif.C01
